@@ -1,6 +1,7 @@
 (* C08 — write authorisation. Executable model of ptt/cache.go (postpermMsg, bannedMsg), ptt/acl.go (ban tag with
    expiry), ptt/cal.go + ptt/bbs.go (getRestrictionReason, getBoardRestrictionReason, checkCooldown),
-   cache/cache_user.go (the packed cool-down word), ptt/article.go (isFileOwner) and the guard sequences of
+   cache/cache_user.go (the packed cool-down word), ptt/article.go (isFileOwner, on the stored bytes through
+   types.Cstrcmp and Filename_t.CreateTime) and the guard sequences of
    ptt.NewPost (DoPostArticle), ptt.Recommend, ptt.EditPost, ptt.CrossPost exactly in the order coded, with the
    first writes that follow them. The read rule is C07's (Model/C07.v). Build-time switches are taken at their
    defaults (USE_COOLDOWN, REJECT_FLOOD_POST, USE_NEW_BAN_SYSTEM, USE_SYSOP_EDIT, SAFE_ARTICLE_DELETE = true). *)
@@ -90,6 +91,16 @@ Definition restriction_reason (logindays badpost limlogins limbad : Z) : Z :=
   else if badpost >? 255 - limbad then ptttype.RESTRICT_REASON_BADPOST
   else ptttype.RESTRICT_REASON_NONE.
 
+(* the same with Go's fixed-width arithmetic spelled out: numLoginDays is a uint32, the three others are uint8;
+   `numLoginDays/10 < uint32(postLimitLogins)` widens the limit BEFORE comparing (no uint8 product that could wrap),
+   `255 - postLimitBadpost` is a uint8 subtraction. This is the function the decision table and op 7 run. *)
+Definition u8_ok (x : Z) : bool := (0 <=? x) && (x <? 256).
+Definition u32_ok (x : Z) : bool := (0 <=? x) && (x <? 4294967296).
+Definition restriction_reason_go (logindays badpost limlogins limbad : Z) : Z :=
+  if wrapu32 (wrapu32 logindays / 10) <? wrapu32 (wrapu8 limlogins) then ptttype.RESTRICT_REASON_NUMLOGIN_DAYS
+  else if wrapu8 badpost >? wrapu8 (255 - wrapu8 limbad) then ptttype.RESTRICT_REASON_BADPOST
+  else ptttype.RESTRICT_REASON_NONE.
+
 (* the packed cool-down word: time in the high bits, post counter in the low four *)
 Definition CD_MASK : Z := 2147483632.                       (* 0x7FFFFFF0 *)
 Definition cd_time (word : Z) : Z := Z.land word CD_MASK.
@@ -110,12 +121,47 @@ Definition banned (has_tag : bool) (expire now : Z) : bool := has_tag && (expire
 Definition is_owner (owner_matches name_long created_after_registration : bool) : bool :=
   if negb owner_matches then false else if negb name_long then false else created_after_registration.
 
+(* isFileOwner on the stored bytes. types.Cstrcmp: C strings inside Go slices (the slice end also terminates) *)
+Fixpoint cstrcmp (a b : list Z) : Z :=
+  match a with
+  | [] => match b with [] => 0 | y :: _ => - y end
+  | x :: a' =>
+      if x =? 0 then match b with [] => 0 | y :: _ => - y end
+      else match b with
+           | [] => x
+           | y :: b' => if x =? y then cstrcmp a' b' else x - y
+           end
+  end.
+Definition cstrlen (l : list Z) : Z := lenZ (cprefix l).
+(* strconv.Atoi on the ten bytes Filename[2:12]: optional sign, then digits only and at least one; an error gives 0 *)
+Definition is_digit (c : Z) : bool := (48 <=? c) && (c <=? 57).
+Fixpoint digits_val (acc : Z) (l : list Z) : Z := match l with [] => acc | c :: r => digits_val (acc * 10 + (c - 48)) r end.
+Definition atoi (l : list Z) : Z :=
+  match l with
+  | [] => 0
+  | c :: r =>
+      if (c =? 43) || (c =? 45)
+      then (match r with [] => 0 | _ => if forallb is_digit r then (if c =? 45 then - digits_val 0 r else digits_val 0 r) else 0 end)
+      else if forallb is_digit l then digits_val 0 l else 0
+  end.
+Definition OWNER_SZ : nat := 14.     (* Owner_t  = [IDLEN+2]byte *)
+Definition USERID_SZ : nat := 13.    (* UserID_t = [IDLEN+1]byte *)
+Definition FN_SZ : nat := 28.        (* Filename_t = [FNLEN]byte *)
+(* Filename_t.CreateTime: Time4(Atoi(f[2:12])) — the conversion to the 32-bit time wraps *)
+Definition create_time (fname : list Z) : Z := wrap32 (atoi (firstn 10 (skipn 2 (fixlen FN_SZ fname)))).
+(* Cstrcmp(fhdr.Owner[:], user.UserID[:]) != 0: the WHOLE C strings are compared *)
+Definition owner_matches (owner uid : list Z) : bool := cstrcmp (fixlen OWNER_SZ owner) (fixlen USERID_SZ uid) =? 0.
+Definition is_file_owner (owner uid fname : list Z) (firstlogin : Z) : bool :=
+  is_owner (owner_matches owner uid) (3 <? cstrlen (fixlen FN_SZ fname)) (create_time fname >=? firstlogin).
+
 (* ------------------------------------------------------------------ operations as guard / effect sequences *)
 Record state := mk_state {
   s_dir : Z;        (* entries of the target board's .DIR *)
   s_files : Z;      (* files in the target board's directory *)
   s_numposts : Z;   (* the author's NumPosts in .PASSWDS *)
-  s_cd : Z          (* the author's cool-down word in shared memory (not part of the property's frame) *)
+  s_cd : Z;         (* the author's cool-down word in shared memory (not part of the property's frame) *)
+  s_other : Z       (* writes to any OTHER board: the ALLPOST / ALLHIDPOST / NEWIDPOST / UNANONYMOUS log boards (index record +
+                       article copy) and, for a cross-post out of a BRD_CPLOG board, the source article + the source index *)
 }.
 Inductive step : Type :=
 | Guard (refuse : bool) (code : Z)       (* if refuse { return code } *)
@@ -130,12 +176,16 @@ Fixpoint run (l : list step) (st : state) : verdict * state :=
   | Eff f :: k => run k (f st)
   end.
 
-Definition eff_cd_check (now : Z) (st : state) : state := mk_state (s_dir st) (s_files st) (s_numposts st) (cd_after_check (s_cd st) now).
-Definition eff_new_file (st : state) : state := mk_state (s_dir st) (s_files st + 1) (s_numposts st) (s_cd st).
-Definition eff_rename_over (st : state) : state := mk_state (s_dir st) (s_files st - 1) (s_numposts st) (s_cd st).
-Definition eff_append_dir (st : state) : state := mk_state (s_dir st + 1) (s_files st) (s_numposts st) (s_cd st).
-Definition eff_inc_numposts (st : state) : state := mk_state (s_dir st) (s_files st) (s_numposts st + 1) (s_cd st).
-Definition eff_add_posttime (st : state) : state := mk_state (s_dir st) (s_files st) (s_numposts st) (cd_add_posttime (s_cd st)).
+Definition eff_cd_check (now : Z) (st : state) : state := mk_state (s_dir st) (s_files st) (s_numposts st) (cd_after_check (s_cd st) now) (s_other st).
+Definition eff_new_file (st : state) : state := mk_state (s_dir st) (s_files st + 1) (s_numposts st) (s_cd st) (s_other st).
+Definition eff_rename_over (st : state) : state := mk_state (s_dir st) (s_files st - 1) (s_numposts st) (s_cd st) (s_other st).
+Definition eff_append_dir (st : state) : state := mk_state (s_dir st + 1) (s_files st) (s_numposts st) (s_cd st) (s_other st).
+Definition eff_inc_numposts (st : state) : state := mk_state (s_dir st) (s_files st) (s_numposts st + 1) (s_cd st) (s_other st).
+Definition eff_add_posttime (st : state) : state := mk_state (s_dir st) (s_files st) (s_numposts st) (cd_add_posttime (s_cd st)) (s_other st).
+(* a write to a board other than the target (counted once per writing step; whether the step writes at all can depend on
+   the board being open — what matters for the property is WHERE in the sequence the step stands) *)
+Definition eff_other (st : state) : state := mk_state (s_dir st) (s_files st) (s_numposts st) (s_cd st) (s_other st + 1).
+Definition eff_other_if (b : bool) (st : state) : state := if b then eff_other st else st.
 
 (* facts about the addressed article and the operation-specific board switches *)
 Record aux := mk_aux {
@@ -157,7 +207,9 @@ Definition new_post_steps (now : Z) (w : winp) : list step :=
     Eff (eff_cd_check now);
     Guard (cooling w) E_COOLDOWN;
     Guard (negb (w_loginok w)) E_NOTPERMITTED;
-    Eff eff_new_file; Eff eff_append_dir; Eff eff_inc_numposts; Eff eff_add_posttime ].
+    Eff eff_new_file; Eff eff_append_dir;
+    Eff eff_other;                                   (* doCrosspost into NEWIDPOST / ALLPOST / ALLHIDPOST (/ UNANONYMOUS) *)
+    Eff eff_inc_numposts; Eff eff_add_posttime ].
 
 (* Recommend *)
 Definition recommend_steps (now : Z) (w : winp) (a : aux) : list step :=
@@ -198,7 +250,10 @@ Definition cross_post_steps (now : Z) (ws wt : winp) (a : aux) : list step :=
     Guard (restricted wt) E_NOPOST;
     Eff (eff_cd_check now);
     Guard (cooling wt) E_COOLDOWN;
-    Eff eff_new_file; Eff eff_append_dir; Eff eff_add_posttime ].
+    Eff eff_new_file;                                (* Stampfile + crossPostWriteFile in the target directory *)
+    Eff eff_other;                                   (* logCrosspostInAllpost: a record in ALLPOST's index *)
+    Eff (eff_other_if (a_cplog a));                  (* crossPostComment + doAddRecommend: the forward line in the SOURCE article / index *)
+    Eff eff_append_dir; Eff eff_add_posttime ].
 
 (* ------------------------------------------------------------------ specification, from the property text *)
 (* the posting rules: never on the read-only system boards; a sysop is otherwise exempt; not while banned;
@@ -231,7 +286,10 @@ Definition vcode (v : verdict) : Z := match v with Accept => 0 | Refuse c => c e
 (* user: [level; over18; logindays; badpost; registered_before_article]
    rel:  [inbm; friend; ban (0 none, 1 active, 2 expired); cd_rel (cool-down time - now, multiple of 16 after masking); posttimes]
    board:[bsel (0 ordinary, 1 read-only ALLPOST, 2 default board); attr; level; limlogins; limbad; nuser]
-   art:  [exists; owner_matches] *)
+   art:  [exists; owner (1 the caller's id, 0 the other fixture user's id, 2 the bytes of the next group)]
+   extended rows carry three more groups:
+   [owner bytes of the addressed article] | [the caller's user id] |
+   src: [attr; level; limlogins; limbad; ban; inbm; friend] of CrossPost's SOURCE board (legacy rows: all 0, the open board Note) *)
 Definition winp_of (ulevel : Z) (o18 inbm fr : bool) (ban : Z) (cd_rel pt : Z) (logindays badpost : Z)
                    (bsel battr blevel limlogins limbad nuser : Z) : winp :=
   let extra := Z.land blevel (Z.lnot PERM_POST) in
@@ -240,30 +298,55 @@ Definition winp_of (ulevel : Z) (o18 inbm fr : bool) (ban : Z) (cd_rel pt : Z) (
           (is_bm_cache_bits ulevel inbm) fr (banned (negb (ban =? 0)) (if ban =? 1 then 1000 else -1000) 0)
           (bsel =? 1) (bsel =? 2) (has battr BRD_GUESTPOST) (has battr BRD_HIDE) (has battr BRD_RESTRICTEDPOST)
           (has blevel PERM_VIOLATELAW) (extra =? 0) (has ulevel extra)
-          (negb (restriction_reason logindays badpost limlogins limbad =? ptttype.RESTRICT_REASON_NONE))
+          (negb (restriction_reason_go logindays badpost limlogins limbad =? ptttype.RESTRICT_REASON_NONE))
           (cd_rel <? 0) (has battr BRD_COOLDOWN) (pt =? 15) (flood nuser pt).
 
-Definition st0 : state := mk_state 2 5 0 0.
+Definition st0 : state := mk_state 2 5 0 0 0.
 Definition delta (st : state) : list Z := [s_dir st - s_dir st0; s_files st - s_files st0; s_numposts st - s_numposts st0].
+Definition frame_changed (st : state) : bool :=
+  negb ((s_dir st =? s_dir st0) && (s_files st =? s_files st0) && (s_numposts st =? s_numposts st0) && (s_other st =? s_other st0)).
 (* status, error code (0 = accepted), entries added to .DIR, files added to the directory, NumPosts added, and
-   "a refusal changed .DIR / the directory / the author's record" — which the sequences below never do *)
-Definition out (r : verdict * state) : list Z := ST_OK :: vcode (fst r) :: delta (snd r) ++ [0].
+   "a refusal changed an index / a board directory (ANY board) / the author's record" — which the sequences never do *)
+Definition out (r : verdict * state) : list Z :=
+  ST_OK :: vcode (fst r) :: delta (snd r) ++ [match fst r with Accept => 0 | Refuse _ => zb (frame_changed (snd r)) end].
+
+(* the four write operations and the rule pieces on one row; [aowner] is isFileOwner's answer's first conjunct *)
+Definition run_row (op ulevel o18 logindays badpost regbefore inbm fr ban cd_rel pt bsel battr blevel limlogins limbad nuser aexists : Z)
+                   (owner_ok : bool) (sattr slevel slimlogins slimbad sban sinbm sfr : Z) : list Z :=
+  let w := winp_of ulevel (bz o18) (bz inbm) (bz fr) ban cd_rel pt logindays badpost bsel battr blevel limlogins limbad nuser in
+  let a := mk_aux (bz aexists) (is_owner owner_ok true (bz regbefore)) false false false
+                  (has battr BRD_VOTEBOARD) (has battr BRD_NORECOMMEND) false in
+  (* CrossPost's source board: the fixture board Note as planted by the src group *)
+  let ws := winp_of ulevel (bz o18) (bz sinbm) (bz sfr) sban cd_rel pt logindays badpost 0 sattr slevel slimlogins slimbad 0 in
+  let asrc := mk_aux (bz aexists) false false false false (has sattr BRD_VOTEBOARD) false (has sattr BRD_CPLOG) in
+  if op =? 1 then out (run (new_post_steps 0 w) st0)
+  else if op =? 2 then out (run (recommend_steps 0 w a) st0)
+  else if op =? 3 then out (run (edit_post_steps w a) st0)
+  else if op =? 4 then out (run (cross_post_steps 0 ws w asrc) st0)
+  else if op =? 5 then [ST_OK; postperm w; zb (restricted w); zb (cooling w)]      (* CheckPostPerm2, !CheckPostRestriction, checkCooldown *)
+  else if op =? 6 then [ST_OK; zb (may_write w); zb (w_readable w); zb (posting_rules w); zb (limits_ok w); zb (w_loginok w); zb (cooldown_active w);
+                        (* the same facts about the source board of a cross-post *)
+                        zb (w_readable ws); zb (posting_rules ws); zb (limits_ok ws)]
+  else [ST_BADCASE].
 
 Definition run_case (args : list (list Z)) : list Z :=
   match args with
   | [[op]; [ulevel; o18; logindays; badpost; regbefore]; [inbm; fr; ban; cd_rel; pt]; [bsel; battr; blevel; limlogins; limbad; nuser]; [aexists; aowner]] =>
-      let w := winp_of ulevel (bz o18) (bz inbm) (bz fr) ban cd_rel pt logindays badpost bsel battr blevel limlogins limbad nuser in
-      let a := mk_aux (bz aexists) (is_owner (bz aowner) true (bz regbefore)) false false false
-                      (has battr BRD_VOTEBOARD) (has battr BRD_NORECOMMEND) false in
-      (* CrossPost's source board: the fixture board Note, open to everyone (attr 0, level 0, no limits) *)
-      let ws := winp_of ulevel (bz o18) false false 0 cd_rel pt logindays badpost 0 0 0 0 0 0 in
-      let asrc := mk_aux (bz aexists) false false false false false false false in
-      if op =? 1 then out (run (new_post_steps 0 w) st0)
-      else if op =? 2 then out (run (recommend_steps 0 w a) st0)
-      else if op =? 3 then out (run (edit_post_steps w a) st0)
-      else if op =? 4 then out (run (cross_post_steps 0 ws w asrc) st0)
-      else if op =? 5 then [ST_OK; postperm w; zb (restricted w); zb (cooling w)]      (* CheckPostPerm2, !CheckPostRestriction, checkCooldown *)
-      else if op =? 6 then [ST_OK; zb (may_write w); zb (w_readable w); zb (posting_rules w); zb (limits_ok w); zb (w_loginok w); zb (cooldown_active w)]
+      if (aowner =? 0) || (aowner =? 1) then
+        run_row op ulevel o18 logindays badpost regbefore inbm fr ban cd_rel pt bsel battr blevel limlogins limbad nuser aexists (bz aowner) 0 0 0 0 0 0 0
       else [ST_BADCASE]
+  | [[op]; [ulevel; o18; logindays; badpost; regbefore]; [inbm; fr; ban; cd_rel; pt]; [bsel; battr; blevel; limlogins; limbad; nuser]; [aexists; aowner];
+     owner; uid; [sattr; slevel; slimlogins; slimbad; sban; sinbm; sfr]] =>
+      if (aowner =? 2) && bytes_ok owner && bytes_ok uid && (lenZ owner <=? 14) && (lenZ uid <=? 13) then
+        run_row op ulevel o18 logindays badpost regbefore inbm fr ban cd_rel pt bsel battr blevel limlogins limbad nuser aexists (owner_matches owner uid)
+                sattr slevel slimlogins slimbad sban sinbm sfr
+      else [ST_BADCASE]
+  | [[op]; [logindays; badpost; limlogins; limbad]] =>          (* op 7: getRestrictionReason on its own *)
+      if (op =? 7) && u32_ok logindays && u8_ok badpost && u8_ok limlogins && u8_ok limbad
+      then [ST_OK; restriction_reason_go logindays badpost limlogins limbad] else [ST_BADCASE]
+  | [[op]; owner; uid; fname; [firstlogin]] =>                  (* op 8: isFileOwner on its own *)
+      if (op =? 8) && bytes_ok owner && bytes_ok uid && bytes_ok fname && (lenZ owner <=? 14) && (lenZ uid <=? 13) && (lenZ fname <=? 28) &&
+         (-2147483648 <=? firstlogin) && (firstlogin <? 2147483648)
+      then [ST_OK; zb (is_file_owner owner uid fname firstlogin)] else [ST_BADCASE]
   | _ => [ST_BADCASE]
   end.
